@@ -12,7 +12,7 @@ IGNORE = ("arguments_modified", "constructor_parameter_objects_modified", "tempo
 def all_adapters():
     d = dict(adapters.ALL)
     from .. import adapters_lot
-    d.update({k: v for k, v in adapters_lot.ALL.items() if not k.startswith("Measure[") and "far batch mate" not in k and "special batches" not in k})
+    d.update({k: v for k, v in adapters_lot.ALL.items() if not k.startswith("Measure[") and "far batch mate" not in k and "special batches" not in k and "all formats" not in k})
     return d
 
 
